@@ -14,7 +14,7 @@ import (
 func init() {
 	core.Register(&core.Spec{
 		ID: "C11", Level: "fault_enumeration",
-		Rule: "case kinds (i mod 4): 0,1 = a data-changing procedure from the C01 generator, 2 = a read-only procedure, 3 = lock scenarios (orphan lock file, live competing holder, signal while waiting for a lock). A tracing run lists every hook point the procedure reaches (statement starts, load begin/end, every lock-acquisition / commit / close step in lib/file, transaction commit/rollback steps); the procedure is then re-run once per (point,hit) x {SIGINT,SIGTERM,SIGQUIT} with the signal delivered to itself exactly there (quick: up to 36 points per procedure, thorough: all), plus termination by error, EXIT and lock timeout. " +
+		Rule: "case kinds (i mod 4): 0,1 = a data-changing procedure from the C01 generator, 2 = a read-only procedure, 3 = lock scenarios (orphan lock file, live competing holder, signal while waiting for a lock). A tracing run lists every hook point the procedure reaches (statement starts, load begin/end, every lock-acquisition / commit / close step in lib/file, transaction commit/rollback steps); the procedure is then re-run once per (point,hit) x {SIGINT,SIGTERM,SIGQUIT} with the signal delivered to itself exactly there (quick: up to 36 points per procedure, thorough: all), plus termination by error, EXIT, lock timeout and a COMMIT whose publishing rename is refused (strace EPERM injection, from the first / from the second rename on). " +
 			"After every run the directory must hold no .lock/.rlock/.temp file and no table that is not part of the last completed COMMIT; a read-only procedure must leave every entry identical in bytes and mtime. non-trivial = the signal was really delivered at the point (process ended by it or with the signal exit code); distinct = (procedure, point, signal).",
 		Quick: 24, Thorough: 600, FloorQuick: 700, FloorThorough: 18000,
 		CaseTimeout: 20 * time.Minute,
